@@ -22,6 +22,9 @@ type WB struct {
 	Stale []*ecs.CachedFilter // filters that were unregistered (their use is illegal)
 	Rec   *Recorder           // event recorder, nil if no listener is installed
 
+	argIDs   [][]ecs.ID        // argument slices handed to the world during the current op
+	argComps [][]ecs.Component // (scribbled over when the op is finished)
+
 	ResIDs [NumRes]ecs.ResID
 	ResPtr [NumRes]any // the pointer handed to Resources.Add
 
@@ -81,7 +84,27 @@ func (b *WB) MapIDs(cs []int) []ecs.ID {
 	for i, c := range cs {
 		out[i] = b.IDs[c]
 	}
+	b.argIDs = append(b.argIDs, out)
 	return out
+}
+
+// ScribbleArgs overwrites every ID list and component list that was handed to the world since the
+// last call: argument slices belong to the caller, who may reuse them as soon as the call (and the
+// query it returned) is finished. A world that kept such a slice instead of copying it now sees
+// garbage.
+func (b *WB) ScribbleArgs() {
+	raw := RawIDs()
+	for _, s := range b.argIDs {
+		for i := range s {
+			s[i] = raw[(int(i)*7+len(s)+ecs.MaskTotalBits-1)%ecs.MaskTotalBits]
+		}
+	}
+	for _, s := range b.argComps {
+		for i := range s {
+			s[i] = ecs.Component{ID: raw[(i*5+ecs.MaskTotalBits-2)%ecs.MaskTotalBits], Comp: nil}
+		}
+	}
+	b.argIDs, b.argComps = b.argIDs[:0], b.argComps[:0]
 }
 
 // Handle maps an ordinal (or TZero) to the handle.
@@ -197,6 +220,7 @@ func (b *WB) Comps(cs []int, toks []uint32) []ecs.Component {
 		}
 		out[i] = b.Comp(c, tok)
 	}
+	b.argComps = append(b.argComps, out)
 	return out
 }
 
@@ -236,9 +260,6 @@ func (b *WB) verify(m *Model, o VerifyOpts) error {
 	es := w.Stats().Entities
 	if es.Used != m.NAlive {
 		return fmt.Errorf("%s: Stats().Entities.Used=%d, creations-removals=%d", b.Name, es.Used, m.NAlive)
-	}
-	if es.Used+es.Recycled != es.Total {
-		return fmt.Errorf("%s: Stats().Entities.Used=%d + Recycled=%d != Total=%d", b.Name, es.Used, es.Recycled, es.Total)
 	}
 	size := 0
 	for i := range w.Stats().Nodes {
@@ -313,6 +334,7 @@ func (b *WB) verifyEntity(m *Model, ord int, o VerifyOpts) error {
 			return fmt.Errorf("%s: Ids(#%d) reports %v, entity should have %v", b.Name, ord, id, e.List())
 		}
 	}
+	scribbleIDs(gotIds) // documented as a copy that "can be manipulated safely"
 	for c := 0; c < b.U.N(); c++ {
 		id := b.IDs[c]
 		has := e.Has(c)
@@ -384,10 +406,12 @@ func (b *WB) verifyScan(m *Model, o VerifyOpts) error {
 			err = fmt.Errorf("%s: Query.Mask at #%d differs from model (%v)", b.Name, ord, e.List())
 			break
 		}
-		if len(q.Ids()) != e.Count() {
-			err = fmt.Errorf("%s: Query.Ids at #%d has %d entries, want %v", b.Name, ord, len(q.Ids()), e.List())
+		qids := q.Ids()
+		if len(qids) != e.Count() {
+			err = fmt.Errorf("%s: Query.Ids at #%d has %d entries, want %v", b.Name, ord, len(qids), e.List())
 			break
 		}
+		scribbleIDs(qids)
 		for c := 0; c < b.U.N() && err == nil; c++ {
 			has := e.Has(c)
 			if q.Has(b.IDs[c]) != has {
@@ -448,4 +472,12 @@ func (b *WB) NewHandles() []ecs.Entity {
 		}
 	}
 	return out
+}
+
+// scribbleIDs overwrites a slice the library handed out as a copy.
+func scribbleIDs(ids []ecs.ID) {
+	raw := RawIDs()
+	for i := range ids {
+		ids[i] = raw[(i*3+ecs.MaskTotalBits-1)%ecs.MaskTotalBits]
+	}
 }
